@@ -4,6 +4,7 @@ import OmplModel.Proofs.CopyState
 import OmplModel.Proofs.CopyCsd
 import OmplModel.Proofs.CopyCommon
 import OmplModel.Proofs.CopyWcFix
+import OmplModel.Proofs.CopySig
 /-!
 C09 — copies and persisted data reproduce states and planner graphs exactly.
 
@@ -113,6 +114,21 @@ theorem reals_roundtrip_repaired (sp : Sp) (st : St) (hf : fits sp st = true) :
 
 example : copyToRealsF (.compound 0 [.wrapper 1 (.compound 2 [.real 3 1, .so2 4])]) (.comp [.wrap (.comp [.leaf [.f64 7], .leaf [.f64 8]])])
     = [7, 8] := by decide
+
+/-- `computeSignature` of a nested space: the head is the length of the rest, the rest lists (type, dimension) of every
+node in pre-order — two entries per node, a compound contributing `[STATE_SPACE_UNKNOWN, Σ dim]` followed by its components;
+a top-level wrapper has the signature of the space it wraps -/
+theorem signature_of_nested (nm : Nat) (cs : List Sp) (s : Sp) :
+    signature (.compound nm cs) = ((2 * (1 + sigNodesL cs) : Nat) : Int) :: ([0, (dimL cs : Int)] ++ sigBodyL cs) ∧
+    (sigBodyL cs).length = 2 * sigNodesL cs ∧
+    signature (.wrapper nm s) = signature s := by
+  refine ⟨?_, sigBodyL_length cs, by simp [signature]⟩
+  have h := sigBody_length (.compound nm cs)
+  rw [signature_nonwrapper _ (by intro a b; simp), h]
+  simp [sigBody, sigNodes]
+
+example : signature (.compound 0 [.real 1 2, .compound 2 [.so2 3, .discrete 4], .wrapper 5 (.so3 6)])
+    = [12, 0, 7, 1, 2, 0, 2, 2, 1, 7, 1, 0, 3] := by decide
 
 /-! ## partial copies -/
 
